@@ -71,6 +71,34 @@ def baseBytes (v : Vector) : Nat :=
   | none => 0
   | some (_, n) => n
 
+/-! ### the allocator's ledger -/
+
+/-- the interposer's view of the heap: ids handed out so far, live blocks -/
+structure Heap where
+  next : Nat
+  live : List Nat
+deriving Repr, Inhabited
+
+def Heap.init : Heap := { next := 1, live := [] }
+
+/-- effect of one event on the ledger -/
+def Heap.apply (h : Heap) : Ev → Heap
+  | .rOk old new _ => { next := max h.next (new + 1), live := (h.live.erase old) ++ [new] }
+  | .rFail _ _ => h
+  | .rFree old => { h with live := h.live.erase old }
+  | .free id => { h with live := h.live.erase id }
+  | .ctor _ => h
+  | .dtor _ => h
+
+def Heap.applyAll (h : Heap) (evs : List Ev) : Heap := evs.foldl Heap.apply h
+
+/-- does the event consume an oracle answer (is it a realloc request)? -/
+def Ev.isRequest : Ev → Bool
+  | .rOk _ _ _ => true
+  | .rFail _ _ => true
+  | .rFree _ => true
+  | _ => false
+
 /-! ### realloc -/
 
 inductive RRes where
@@ -216,6 +244,67 @@ def vsort (v : Vector) : Except Stop Vector :=
     if scratchOk v then .ok { v with elems := sortVals v.elems }
     else if v.base.isNone then .error .nullDeref else .error .oob
   else .ok v
+
+/-! ### histories of vector operations: two vectors over one heap -/
+
+inductive VOp where
+  | reserve (sz : Nat)
+  | shrink
+  | resize (sz : Nat)
+  | clear
+  | swap
+  | sort
+  | reverse
+  | set (i x : Nat)
+  | get (i : Nat)
+deriving Repr
+
+/-- one operation on one vector (`swap` involves both and is handled by `Sys.step`) -/
+def vstepV (ans : Nat → Bool) (newId : Nat) (v : Vector) : VOp → Except Stop (Vector × List Ev)
+  | .reserve sz => .ok (reserve ans newId v sz)
+  | .shrink => .ok (shrink ans newId v)
+  | .resize sz => resize ans newId v sz
+  | .clear => clear v
+  | .swap => .ok (v, [])
+  | .sort => match vsort v with
+    | .error st => .error st
+    | .ok v' => .ok (v', [])
+  | .reverse => match vreverse v with
+    | .error st => .error st
+    | .ok v' => .ok (v', [])
+  | .set i x => match vset v i x with
+    | .error st => .error st
+    | .ok v' => .ok (v', [])
+  | .get i => match vget v i with
+    | .error st => .error st
+    | .ok _ => .ok (v, [])
+
+structure Sys where
+  a : Vector
+  b : Vector
+  heap : Heap
+
+def Sys.sel (s : Sys) (w : Bool) : Vector := if w then s.b else s.a
+
+def Sys.put (s : Sys) (w : Bool) (v : Vector) (h : Heap) : Sys :=
+  if w then { a := s.a, b := v, heap := h } else { a := v, b := s.b, heap := h }
+
+/-- operation `op` on vector `w` with allocator answers `ans`; a successful
+request gets the next block id, the ledger follows the event list -/
+def Sys.step (s : Sys) (w : Bool) (op : VOp) (ans : Nat → Bool) : Except Stop Sys :=
+  match op with
+  | .swap => .ok { a := (vswap s.a s.b).1, b := (vswap s.a s.b).2, heap := s.heap }
+  | op =>
+    match vstepV ans s.heap.next (s.sel w) op with
+    | .error st => .error st
+    | .ok (v, evs) => .ok (s.put w v (s.heap.applyAll evs))
+
+def Sys.run (s : Sys) : List (Bool × VOp × (Nat → Bool)) → Except Stop Sys
+  | [] => .ok s
+  | (w, op, ans) :: rest =>
+    match s.step w op ans with
+    | .error st => .error st
+    | .ok s' => s'.run rest
 
 /-! ### raw accesses of the string layer (`STRF(__at, s, i)` = `data + i`) -/
 
